@@ -13,7 +13,9 @@ blocked once everything is delivered and half-open connections are closed.
 H3 (dsched + fake network): a subscriber thread of a real QMI_Context blocks in subscribe while the
 peer is disconnected / stopped / the publisher removed, under random schedules: the call must return.
 """
+import json
 import logging
+import os
 
 import dsched
 import pubsub_sim as S
@@ -120,6 +122,10 @@ def block_oracle(res):
                 o["late"], o["lsubs"], o["rsubs"], o["pending"])
         if o["pending"]:
             return "left-behind", "pending requests remain: %r" % o["pending"]
+        if o["how"] == "remove" and o["lsubs"] and not o["rsubs"] and not o["late"] and all(r == "ok" for _, r in o["results"]):
+            return ("stale-subscription-after-removal",
+                    "publisher removed while a subscribe request was being answered: the subscriber keeps %r although the "
+                    "publisher side lists nobody (the removal notice overtook the success reply)" % (o["lsubs"],))
         if bool(o["rsubs"]) != bool(o["lsubs"]):
             return "inconsistent", "publisher side rsubs=%r but subscriber side lsubs=%r" % (o["rsubs"], o["lsubs"])
         if bool(o["late"]) != bool(o["lsubs"]):
@@ -145,14 +151,22 @@ def run(ck):
     import qmi.core.context, qmi.core.rpc, qmi.core.pubsub, qmi.core.messaging, qmi.core.task  # noqa  (before fork)
     sims = c07.run_sims(ck, "c08")
     c07.check_sims(ck, sims, "C08", KEYS)
-    nsched = 150 if ck.tier == "quick" else 4000
+    nsched = 900 if ck.tier == "quick" else 30000
     jobs = []
+    cdir = os.path.join(os.path.dirname(os.path.dirname(os.path.abspath(__file__))), "corpus", "C08")
+    if os.path.isdir(cdir):
+        for fn in sorted(os.listdir(cdir)):
+            if fn.endswith(".json"):
+                with open(os.path.join(cdir, fn)) as f:
+                    c = json.load(f)
+                jobs.append((scenario_block, (c["seed"], c["how"]), dict(strategy="replay", schedule=list(c["schedule"]))))
+                ck.count("corpus")
     for i in range(nsched):
         how = ["disconnect", "server_stop", "remove"][i % 3]
         jobs.append((scenario_block, (ck.rng.randint(0, 10 ** 6), how), dict(strategy="random" if i % 2 else "pct", seed=i)))
     results = dsched.run_forked(jobs, nproc=16, wall_timeout=60.0)
     for (fn, args, kw), res in zip(jobs, results):
-        ck.note_case(("block", args, kw["seed"], tuple(res.get("choices") or ())[:50]), True)
+        ck.note_case(("block", args, kw.get("seed"), tuple(res.get("choices") or ())[:50]), True)
         ck.count("block:%s:%s" % (args[1], res["status"]))
         if res["status"] == "ok":
             for i, r in res["obs"]["results"]:
